@@ -126,6 +126,8 @@ PROPS["C16"] = {"theorems": [("GdslModel.Props.C16", "G.Traits." + t) for t in [
     "level_note": "Trusted: Lean kernel (+ propext, Classical.choice, Quot.sound), the translator (fails loudly on constructs it does not know), the transcription of std's auto-trait rules (checked against rustc by the probe), rustc itself for the probe rows.",
     "design_ref": "DESIGN.md section 7, C16"}
 
-PROPS["C19"] = {"theorems": [], "oracles": ["c19"],
+PROPS["C19"] = {"theorems": [("GdslModel.Props.C19", "G.Own." + t) for t in ["inv_step", "inv_run", "released_once", "no_premature_release", "all_released_at_end", "edges_do_not_own", "held_alive"]], "oracles": ["c19"],
     "rule": "seeded histories over the four flavours with drop-counting node values: build/use phase (nodes, clones, containers, edges, paths, search results, orderings held in slots; unconnected nodes come and go), hand-off phase (the original handles are dropped first, so results/containers/clones alone keep nodes alive), tear-down in random order; after every request the set of released values is compared with the model and with the handles actually held. distinct_nontrivial = number of histories.",
-    "exhaustive": False, "level_text": "", "level_note": CORR_NOTE, "technique": "", "design_ref": "DESIGN.md section 7, C19"}
+    "exhaustive": False,
+    "level_text": "Machine-checked proof (Lean 4) about the ownership-accounting model (strong handles held by program slots: node handles, edges, paths, search results, containers; adjacency entries weak): after every history a node value is released exactly when no slot mentions its key - at most once, never while a handle is held, always once the last handle is gone - for any graph shape (cycles, self-loops, still-connected nodes) and drop order; results of traversals only ever hold alive nodes (uses the BFS/DFS/ordering soundness theorems); connecting creates no handle. That Rc/Arc/Weak implement this accounting is trusted std semantics; the tie to the four flavours is the correspondence with drop-counting node values (released sets compared after every request of seeded histories with build, hand-off and tear-down phases) and a direct oracle on the handles actually held.",
+    "level_note": CORR_NOTE, "technique": "Lean 4 invariant proof over the ownership-accounting model + model/implementation correspondence with drop-counting payloads + held-handle oracle", "design_ref": "DESIGN.md section 7, C19"}
